@@ -349,7 +349,18 @@ def tie(ctx, model_ok=True):
             tmpl = rnd.choice(['!celsius 21.5\n', 'v: !celsius 21.5\nw: !n 7\n', '- !a 1\n- !b true\n- !c null\n- !d 1e3\n',
                                'k: [!x 0x1F, !y .inf]\n', '!t yes\n', 'a: !q 2001-12-14\n'])
             yield specs, rnd.choice(['any', None]), tmpl, 'directed-plain-tagged'
-        # directed: both spellings of an attribute (max_size and max-size) in a class that takes extra attributes
+        # directed: both spellings of an attribute (max_size and max-size) in a class that takes extra attributes -- one fixed
+        # family (always present), then generated ones
+        fam = [{'name': 'Srv', 'kind': 'obj', 'bases': [], 'extra': True, 'registered': True,
+                'params': [{'name': 'target', 'type': 'str', 'required': True}, {'name': 'max_size', 'type': 'int', 'required': True},
+                           {'name': 'log_level', 'type': ('optional', 'str'), 'required': False}]}]
+        S, Q, M = loadcase.S, loadcase.Q, loadcase.M
+        for dashed in (S('big'), S('2.5', 'float'), Q([S('1', 'int')]), S('11', 'int')):
+            for order in (0, 1, 2):
+                ps = [(S('target'), S('srv')), (S('max-size'), encode.copy_tree(dashed)), (S('max_size'), S('10', 'int'))]
+                ps = ps[order:] + ps[:order]
+                yield fam, ('class', 'Srv'), loadcase.serialize(M(ps)), 'directed-both-spellings'
+                yield fam, ('list', 0, ('class', 'Srv')), loadcase.serialize(Q([M(ps)])), 'directed-both-spellings'
         for _ in range(n_models):
             specs = loadcase.gen_model(rnd, hooks=False)
             cands = [(sp, p) for sp in specs if sp['kind'] == 'obj' and sp.get('extra') and sp.get('registered', True)
